@@ -127,6 +127,50 @@ theorem skipLoop_spaces (t : Bytes) (m : Nat) (hm : m < t.length)
         (fun j hj1 hj2 => hsp j (by simp at hj1; omega) hj2)
 
 
+/-- white space is skipped up to a byte `m` at which the loop stops (general form) -/
+theorem skipLoop_spaces_gen (t : Bytes) (m : Nat) (hm : m < t.length)
+    (hms : isSpace (t.getD m 0) = false)
+    (hbase : ∀ (f : Nat) (p : Pos) (ce : Option Pos), p.pos = m → skipLoop t (f + 1) false p ce = .ok (p, ce)) :
+    ∀ (f : Nat) (p : Pos) (ce : Option Pos), p.pos ≤ m → m - p.pos < f →
+      (∀ j, p.pos ≤ j → j < m → isSpace (t.getD j 0) = true) →
+      ∃ q, skipLoop t f false p ce = .ok (q, ce) ∧ q.pos = m := by
+  intro f
+  induction f with
+  | zero => intro p ce _ h; omega
+  | succ f ih =>
+    intro p ce hp hf hsp
+    by_cases hpm : p.pos = m
+    · exact ⟨p, hbase f p ce hpm, hpm⟩
+    · have hlt : p.pos < m := by omega
+      have hc := hsp p.pos (Nat.le_refl _) hlt
+      simp only [skipLoop]
+      rw [peek_lt (show p.pos < t.length by omega)]; simp only [Res.ok_bind]
+      by_cases h13 : t.getD p.pos 0 = 13
+      · rw [if_pos h13]
+        obtain ⟨d, hd, hdnz, hdval⟩ := peek_le (show p.pos + 1 ≤ t.length by omega)
+        rw [hd]; simp only [Res.ok_bind]
+        by_cases hd10 : d = 10
+        · have hlt2 : p.pos + 1 < t.length := hdnz (by rw [hd10]; decide)
+          have hdv : t.getD (p.pos + 1) 0 = 10 := by rw [← hdval hlt2, hd10]
+          have hne : m ≠ p.pos + 1 := by
+            intro e; rw [e, hdv] at hms; revert hms; decide
+          simp only [hd10, if_true]
+          exact ih ⟨p.line + 1, p.pos + 2, p.pos + 2⟩ ce (by simp; omega) (by simp; omega)
+            (fun j hj1 hj2 => hsp j (by simp at hj1; omega) hj2)
+        · simp only [hd10, if_false]
+          exact ih ⟨p.line + 1, p.pos + 1, p.pos + 1⟩ ce (by simp; omega) (by simp; omega)
+            (fun j hj1 hj2 => hsp j (by simp at hj1; omega) hj2)
+      rw [if_neg h13]
+      by_cases h10 : t.getD p.pos 0 = 10
+      · rw [if_pos h10]
+        exact ih ⟨p.line + 1, p.pos + 1, p.pos + 1⟩ ce (by simp; omega) (by simp; omega)
+          (fun j hj1 hj2 => hsp j (by simp at hj1; omega) hj2)
+      rw [if_neg h10, if_neg (isSpace_ne_60 hc), if_pos hc]
+      exact ih ⟨p.line, p.pos + 1, p.ls⟩ ce (by simp; omega) (by simp; omega)
+        (fun j hj1 hj2 => hsp j (by simp at hj1; omega) hj2)
+
+
+
 /-! ### tokens of the serialised text -/
 
 theorem tokenAt_startTag {t : Bytes} {p : Pos} {d : UInt8} {r : Bytes}
